@@ -3,7 +3,7 @@
 From Coq Require Import List ZArith NArith Bool Arith String.
 From Scalibr Require Import Sched.Compute Sched.ComputeProofs Sched.Cache Sched.CacheProofs
                             Sched.RaceModel Sched.Generated_WalkAccesses Sched.RaceProofs
-                            Sched.ClientRace Sched.Generated_ClientAccesses Sched.ClientRaceProofs.
+                            Sched.ClientRace Sched.Generated_ClientAccesses Sched.Generated_ClientExempt Sched.ClientRaceProofs.
 Import ListNotations.
 
 (* ================================================================== (a) patch computation *)
@@ -95,60 +95,41 @@ Proof. exact waiter_progress. Qed.
 Print Assumptions done_waiter_can_wake.
 
 (* ================================================================== (c) walk context - PARTIAL *)
-(* on the access table regenerated from filesystem.go on this run: every conflicting pair of accesses to the
-   walk context by the walking goroutine and the status ticker goroutine of RunFS is ordered by the `go`
-   statement or made under a common mutex (after /repo's "fix: filesystem: guard the walk counters read by the
-   status-printing goroutine with a mutex"; before it this statement was refuted on inodesVisited /
-   extractCalls / currentPath) *)
+(* No statement below mentions a field, mutex or function name of the code: each is a computed predicate over the
+   tables regenerated from the Go AST on this run (renaming or regrouping fields, renaming a mutex or moving
+   accesses into helpers that take the same mutex does not touch them).
+   On the access table of the walk context: every conflicting pair of accesses by the goroutine of the root
+   function and the goroutine it starts is ordered by the `go` statement or made under a common mutex. *)
 Theorem walk_context_race_free :
-  race_free walk_accesses walk_calls "RunFS" = true /\
-  racy_fields walk_fields walk_accesses walk_calls "RunFS" = [].
+  race_free walk_accesses walk_calls walk_root = true /\
+  racy_fields walk_fields walk_accesses walk_calls walk_root = [].
 Proof. exact walk_context_race_free_lemma. Qed.
 Print Assumptions walk_context_race_free.
 
 (* ================================================================== (c') shared clients - PARTIAL *)
-(* on the access table regenerated from clients/datasource and clients/resolution on this run (any two methods
-   of a struct may run concurrently on one receiver): the request cache, the lazily initialised combined
-   client and the npm / deps.dev caches keep every conflicting pair of accesses under their mutex *)
-Theorem shared_clients_lock_protected :
-  forallb (fun sf => slot_free client_accesses (fst sf) (snd sf))
-    [("RequestCache", "cache"); ("RequestCache", "calls");
-     ("CombinedNativeClient", "mavenRegistryClient"); ("CombinedNativeClient", "npmRegistryClient");
-     ("CombinedNativeClient", "pypiRegistryClient");
-     ("NPMRegistryAPIClient", "details"); ("NPMRegistryAPIClient", "cacheTimestamp");
-     ("CachedInsightsClient", "packageCache"); ("CachedInsightsClient", "versionCache");
-     ("CachedInsightsClient", "requirementsCache"); ("CachedInsightsClient", "cacheTimestamp")]%string = true.
-Proof. exact shared_clients_lock_protected_lemma. Qed.
-Print Assumptions shared_clients_lock_protected.
+(* on the tables of clients/datasource and clients/resolution (any two methods of a struct may run concurrently on
+   one receiver; a helper called only with a lock held inherits it - fixed point over the call sites): every
+   (struct, field) slot with a conflicting pair of accesses sharing no mutex is an accepted exception
+   (KNOWN_FINDINGS.d/C16.json, kind unprotected-slot: confined objects and set-up-time writes), and every slot
+   the code guards with a mutex somewhere is guarded everywhere *)
+Theorem shared_clients_race_free :
+  clients_race_free eff_accesses client_exempt = true /\
+  new_unprotected_slots eff_accesses client_exempt = [] /\
+  forallb (fun s => exempted client_exempt s || slot_free eff_accesses (fst s) (snd s)) (guarded_slots eff_accesses) = true.
+Proof. exact shared_clients_race_free_lemma. Qed.
+Print Assumptions shared_clients_race_free.
 
-(* ... and these are all the slots that do not: the Maven registry list (written by AddRegistry without the
-   mutex while the client is set up, read by the lookups), its cache timestamp (read by WithoutRegistries), and the OverrideClient maps (an
-   OverrideClient is built and filled by one goroutine per Resolve call: confined, not shared) *)
-Theorem client_unprotected_slots_refuted :
-  unprotected_slots client_accesses =
-    [("MavenRegistryAPIClient", "registries"); ("MavenRegistryAPIClient", "cacheTimestamp");
-     ("OverrideClient", "verDeps"); ("OverrideClient", "pkgVers")]%string.
-Proof. exact client_unprotected_slots_lemma. Qed.
-Print Assumptions client_unprotected_slots_refuted.
+(* no method appends to a field slice in place without storing the result *)
+Theorem no_in_place_append : in_place_appends = [].
+Proof. exact no_in_place_append_lemma. Qed.
+Print Assumptions no_in_place_append.
 
-(* after /repo's "fix: datasource: MavenRegistryAPIClient lookups iterate over a fresh registry slice": no
-   method appends to a field slice in place, the registry list is written by AddRegistry only (the remaining
-   reason it is in the list above: set-up-time writes without the mutex) and read through allRegistries *)
-Theorem registries_never_appended_in_place :
-  in_place_appends = [] /\
-  writers "MavenRegistryAPIClient" "registries" = ["AddRegistry"]%string /\
-  existsb (fun a => String.eqb (ca_method a) "allRegistries" && String.eqb (ca_field a) "registries") client_accesses = true.
-Proof. exact registries_never_appended_in_place_lemma. Qed.
-Print Assumptions registries_never_appended_in_place.
-
-(* cached slices / maps escaping the lock: on the escape and in-place-mutation tables regenerated from
-   clients/datasource and clients/resolution, no value obtained from a function that returns struct-held memory
-   without copying is sorted / reversed / index-assigned / appended-into by its caller (the tables are not
-   empty: there are escaping functions, and there are in-place sorts - of freshly built slices) *)
+(* cached slices / maps escaping the lock: no value obtained from a function that returns struct-held memory
+   without copying is sorted / reversed / index-assigned / appended-into by its caller *)
 Theorem no_cached_slice_mutated_in_place :
   cached_mutations client_escapes client_mutations = [] /\
   client_escapes <> [] /\
-  existsb (fun m => String.eqb (m_op m) "slices.SortFunc" && String.eqb (m_origin m) "fresh") client_mutations = true.
+  existsb (fun m => String.eqb (m_origin m) "fresh") client_mutations = true.
 Proof. exact no_cached_slice_mutated_in_place_lemma. Qed.
 Print Assumptions no_cached_slice_mutated_in_place.
 
@@ -182,26 +163,30 @@ Example cache_reachable_example :
   exists s, reachable s /\ threads s 0 = TRun 0%N 0 0 /\ threads s 1 = TWait 0%N 3 0.
 Proof. exact cache_reachable_example_lemma. Qed.
 
-(* the theorem is about a non-empty set of conflicting pairs, all of them under a common lock *)
+(* the walk theorem is about a non-empty set of conflicting pairs, all of them under a common lock *)
 Example walk_conflicts_exist_and_are_locked :
   conflicting_pairs <> [] /\ forallb (fun p => share_lock (fst p) (snd p)) conflicting_pairs = true.
 Proof. exact walk_conflicts_exist_and_are_locked_lemma. Qed.
 
-(* race_free is not constantly true: without the mutex the table races on exactly the three status fields *)
-Example race_returns_without_status_lock :
-  race_free (map without_locks walk_accesses) walk_calls "RunFS" = false /\
-  racy_fields walk_fields (map without_locks walk_accesses) walk_calls "RunFS" =
-    ["inodesVisited"; "extractCalls"; "currentPath"]%string /\
-  racy_ticker_fns (map without_locks walk_accesses) walk_calls "RunFS" = ["printStatus"]%string /\
-  racy_main_fns (map without_locks walk_accesses) walk_calls "RunFS" = ["handleFile"; "runExtractor"]%string.
-Proof. exact race_returns_without_status_lock_lemma. Qed.
+(* race_free is not constantly true: the same table with every lock set emptied races *)
+Example race_returns_without_locks :
+  race_free (map without_locks walk_accesses) (map without_call_locks walk_calls) walk_root = false.
+Proof. exact (proj1 race_returns_without_locks_lemma). Qed.
 
-(* the discipline sees the repaired shape when it is put back *)
+(* the client theorem checks at least two mutex-guarded, written slots; it fails when the locks are dropped, when
+   reads become in-place appends, and the escape relation sees a cached list sorted by its receiver *)
+Example guarded_slots_exist : (2 <= List.length guarded_checked_slots)%nat.
+Proof. exact guarded_slots_exist_lemma. Qed.
+
+Example dropped_locks_are_detected :
+  clients_race_free (map without_clocks client_accesses) client_exempt = false.
+Proof. exact dropped_locks_are_detected_lemma. Qed.
+
 Example append_shape_is_detected :
   existsb (fun p => match ca_kind (fst p), ca_kind (snd p) with AA, AA => true | _, _ => false end)
-          (unprotected_pairs (map with_in_place_append client_accesses)) = true.
+          (unprotected_pairs (map with_in_place_append eff_accesses)) = true.
 Proof. exact append_shape_is_detected_lemma. Qed.
 
 Example cached_mutation_shape_is_detected :
-  map m_expr (cached_mutations seeded_escapes seeded_mutations) = ["vers.Versions"]%string.
+  map m_expr (cached_mutations seeded_escapes seeded_mutations) = ["got.List"]%string.
 Proof. exact cached_mutation_shape_is_detected_lemma. Qed.
